@@ -209,6 +209,23 @@ def run_unit(unit):
                     res["nontrivial_count"] += 1
                     if msgs:
                         res["violations"].append({"case": {"cfg": cfg, "hist": hist}, "msg": f"{msgs[0]} [edit {e}; cfg: {brief(cfg)}]", "kind": "edit" + msgs[0].split(":")[-1][:25]})
+    # a schedule that passes through 0 and comes back (momentum / weight decay switched off for a while): the masked lists
+    # must be current when the stage is switched on again, whatever the gradient-presence changes in between
+    if not cfg.get("groups") and (cfg["momentum"] != 0.0 or cfg["wd"] != 0.0):
+        singles = [[1, 0, 0], [0, 1, 0], [0, 0, 1], [1, 1, 1]]
+        for key, back in (("momentum", cfg["momentum"]), ("wd", cfg["wd"])):
+            if back == 0.0:
+                continue
+            for m1, m2 in itertools.product(singles, repeat=2):
+                hist = pre[:1] + [["set", 0, key, 0.0], list(m1), ["set", 0, key, back], list(m2), list(m2)]
+                msgs, digests, worst, n = check_history(cfg, hist, compare_from=0)
+                res["evals"] += 1
+                res["transitions"] += n
+                res["states"].update(digests)
+                res["stats"]["off_on_schedules"] = res["stats"].get("off_on_schedules", 0) + 1
+                res["nontrivial_count"] += 1
+                if msgs:
+                    res["violations"].append({"case": {"cfg": cfg, "hist": hist}, "msg": f"{msgs[0]} [{key} switched off and on again; cfg: {brief(cfg)}]", "kind": "offon" + msgs[0].split(":")[-1][:25]})
     res["samples"].append({"cfg": brief(cfg), "history": pre + [list(masks[3])] * (depth - len(pre))})
     res["states"] = list(res["states"])
     res["outcomes"] = list(res["outcomes"])
